@@ -190,7 +190,7 @@ def structure(ctx):
     gs = guards(d0.stmt, stop=loop, asserts=False)
     cond = [frozenset()]
     for t, pol in gs:
-        d = pat.dnf(t, pol)
+        d = pat.bool_dnf(ctx, it, t, pol)
         if d is None:
             raise AnalysisError("C05.R3: removal condition too large for DNF")
         cond = [a | b for a in cond for b in d]
@@ -244,9 +244,8 @@ def structure(ctx):
                 "once per iteration: later insertions use a drifting position",
                 text_="populate position counter")
     # rank pop under the owner guard: C02.R3 (reported there); presence here
-    pops = [c for c in pat.calls(_walk(blk), attr="pop")
-            if pat.inline(ctx, it, c.func.value).replace(" ", "") ==
-            "%s.getOwner().getNextRank()" % dst]
+    from ..sites import rank_pops
+    pops = [c for c, _ in rank_pops(ctx, it, blk, dst)]
     if pops:
         ctx.ok("C05.R3", it, pops[0], "created sub-fiber is popped from the "
                "next rank when removed")
